@@ -295,6 +295,12 @@ def modform(eng, e, bits=16, depth=0):
                 out[s2] = out.get(s2, 0) + k * k2
             for s2, k2 in lb[1].items():
                 out[s2] = out.get(s2, 0) + k * sign * k2
+        elif isinstance(n, tuple) and n and n[0] == "trunc" and isinstance(n[1], int) and n[1] >= bits and depth < 12:
+            # (x as uN) with N >= bits is congruent to x modulo 2^bits
+            la = modform(eng, n[2], bits, depth + 1)
+            const += k * la[0]
+            for s2, k2 in la[1].items():
+                out[s2] = out.get(s2, 0) + k * k2
         else:
             out[s] = out.get(s, 0) + k
     out = {s: k % m for s, k in out.items() if k % m}
